@@ -140,7 +140,11 @@ def short_buffer_reads_on(repo, f, n, X, want, reads, read_nodes, tn, proper_onl
     head = [x for x in g.nodes_of(W) if x.kind == "join"][0]
     if not any(any(a is W for a in f.module.ancestors(s.ast)) for s in stores_to_name(f, X)):
         return False            # the loop never refreshes X: nothing to re-decide
-    in_loop = set(x.id for x in g.nodes if x.ast is not None and (x.ast is W or any(a is W for a in f.module.ancestors(x.ast))))
+    def _within(a0):
+        return a0 is not None and (a0 is W or any(a is W for a in f.module.ancestors(a0)))
+    # (the parts of a chained comparison / boolean test are nodes with synthesised expressions: they belong where their
+    # statement is)
+    in_loop = set(x.id for x in g.nodes if _within(x.ast) or _within(getattr(x, "stmt", None)))
     in_loop.add(head.id)
     shorts = set(want[:i] for i in range(K)) | set((want[:i] + b"a")[:K - 1] for i in range(K)) | {b""}
     if proper_only:
